@@ -134,8 +134,14 @@ def d2_refusals(chk, repo):
             for s2 in st.body:
                 if isinstance(s2, ast.If) and always_raises(s2.body):
                     ct = v.ev.term(s2.test, at=s2)
-                    want = v.spec("xa[i].values.size > 1 and (not np.allclose(np.diff(xa[i].values), np.diff(xa[i].values).mean()))", env={"i": i})
+                    want = v.spec("xa[i].values.size > 1 and (not np.allclose(np.diff(xa[i].values), np.diff(xa[i].values).mean(), atol=0))", env={"i": i})
                     oks = v.eq(ct, want)
+                    # a purely relative comparison: the absolute tolerance must be switched off (or scaled by the spacing)
+                    abs_tol = [a_ for a_ in v.ctx.all_atoms(ct) if v.ctx.atoms[a_][0][:2] == ("call", "np.allclose")
+                               and "atol" not in v.ctx.atoms[a_][0][3]]
+                    chk.ob("field.Field.from_xarray::spacing-test-is-scale-free", not abs_tol, "C17.D2",
+                           "np.allclose with its default absolute tolerance 1e-8 accepts ANY spacing for coordinates of the order of "
+                           "1e-9 (nanometre meshes): unevenly spaced coordinates would not be rejected", v.f, s2)
     chk.ob("field.Field.from_xarray::refuses::uneven-spacing", oks, "C17.D2",
            "every spatial coordinate with more than one entry must be equally spaced (np.allclose of the differences with their mean)", v.f)
     okk = False
